@@ -527,7 +527,20 @@ def run_op(u: Universe, op):
         if name in ("buy", "sell"):
             held = sorted(m.positions.keys())
             nme = names[args[0] % len(names)] if name == "buy" or not held else held[args[0] % len(held)]
-            return getattr(m, name)(nme, D(args[1]))
+            mode = args[2] if len(args) > 2 else None
+            kw = {}
+            if mode and mode[0] == "cap":
+                kw["max_mark_price_multiple"] = D(mode[1])
+            elif mode and mode[0] in ("token", "usd") and nme in m.market_status.data.index:
+                row = m.market_status.data.loc[nme]
+                side = row.asks if name == "buy" else row.bids
+                if side:
+                    lvl = side[mode[1] % len(side)]
+                    if mode[0] == "token":
+                        kw["price_in_token"] = D(str(lvl[0]))
+                    else:
+                        kw["price_in_usd"] = D(str(lvl[0])) * D(str(row.underlying_price))
+            return getattr(m, name)(nme, D(args[1]), **kw)
         raise ValueError(op)
     if mkt == "glp":
         t = args[0].upper()
@@ -567,21 +580,26 @@ def make_script(u: Universe):
         def _vf_trigger(self, snap):
             self._vf_phase("trigger", snap)
 
-        def _vf_phase(self, phase, snap):
-            u.bar = snap.row_id
-            u.prices = snap.prices
-            for o in u.obs:
-                o.phase_start(u, phase, snap)
+        _vf_notified = -1
+
+        def _vf_ops(self, phase, row_id):
             for op in u.case["prog"]:
-                if op[0] == snap.row_id and op[1] == phase:
+                if op[0] == row_id and op[1] == phase:
                     try:
                         r = run_op(u, op)
                         out = ("skip", None) if isinstance(r, str) and r == "skip" else ("ok", r)
                     except Exception as e:  # noqa: a rejected user operation is an outcome
                         out = ("rejected", e)
-                    u.outcomes.append((snap.row_id, phase, op, out))
+                    u.outcomes.append((row_id, phase, op, out))
                     for o in u.obs:
                         o.op_done(u, phase, op, out)
+
+        def _vf_phase(self, phase, snap):
+            u.bar = snap.row_id
+            u.prices = snap.prices
+            for o in u.obs:
+                o.phase_start(u, phase, snap)
+            self._vf_ops(phase, snap.row_id)
             for o in u.obs:
                 o.phase_end(u, phase, snap)
 
@@ -597,6 +615,10 @@ def make_script(u: Universe):
         def notify(self, action):
             for o in u.obs:
                 o.on_notify(u, action)
+            # operations scheduled for the notification hook run once, on the first notification of their bar
+            if self._vf_notified != u.bar:
+                self._vf_notified = u.bar
+                self._vf_ops("notify", u.bar)
 
         def finalize(self):
             for o in u.obs:
